@@ -26,6 +26,10 @@ NEIGHBOURS = [{"from": "C11", "limit": 400, "why": "the in-progress marks are re
 
 def cases(tier, rng):
     thorough = tier == "thorough"
+    for c in directed.constructor_calls_back_cases():
+        yield "directed-constructor-calls-back", c
+    for c in directed.contract_calls_same_method_of_fresh_object_cases():
+        yield "directed-same-method-of-fresh-object", c
     for c in directed.construct_inside_contract_cases():
         yield "directed-construct-inside-contract", c
     for _ in range(12000 if thorough else 1500):
